@@ -102,15 +102,14 @@ Definition run_case (c : sexp) : sexp :=
     let ops := map op_of (tl (get_list c)) in
     SList (zip_obs ops (srun sess0 ops))
   else if head_is c "inflight" then
-    (* (inflight (SETUP-OP ...) OP): OP is held inside its file-system call while Stop runs *)
+    (* (inflight (SETUP-OP ...) OP): OP is held inside its file-system call while Stop is called *)
     let ops := map op_of (get_list (arg c 0)) in
     let tr := srun sess0 ops in
     let '(o, ts) := op_of (arg c 1) in
-    let '((s2, _, cs2), (s3, r, cs)) := inflight_stop (final sess0 tr) o ts in
+    let '((_, r, cs), (s3, _, cs2)) := inflight_stop (final sess0 tr) o ts in
     SList (zip_obs ops tr ++
-           [SList [ssym "stop"; sexp_of_table s2; SList (map sexp_of_call (sort_by call_key cs2))];
-            SList [sexp_of_result r; sexp_of_table s3; SList (map sexp_of_call cs)]])
-  else if head_is c "inflightx" then SList [ssym "oracle-only"]
+           [SList [ssym "stop"; ssym (if stop_waits o then "blocked" else "returned")];
+            SList [sexp_of_result r; sexp_of_table s3; SList (map sexp_of_call (sort_by call_key (cs ++ cs2)))]])
   else SList [ssym "unknown-case"].
 
 Definition run_line (line : list N) : list N := print_sexp (run_case (parse_sexp line)).
